@@ -48,7 +48,7 @@ def find_written(bindings, segs, prefix=()):
     for i, b in enumerate(bindings):
         if b.kind != "bind":
             continue
-        full = prefix + tuple(s if isinstance(s, str) else "${" + str(s[1]) + "}" for s in b.path)
+        full = prefix + tuple(s if isinstance(s, str) else "\x00dyn:" + str(s[1]) for s in b.path)
         if list(full) == list(segs):
             return bindings, i
         if len(full) < len(segs) and list(full) == list(segs[: len(full)]) and b.sub is not None:
